@@ -64,6 +64,29 @@ def patch_axolotl_padding(enable=True):
     sc.AESCipher.encrypt = _enc
 
 
+_orig_add_sender_key_state = None
+
+
+def patch_axolotl_senderkey_order(enable=True):
+    """E4: python-axolotl 0.2.2 appends a newly received sender-key state at the END of the record while lookups return
+    the FIRST state with the key id (libsignal adds new states in front).  A group message that arrives after a later one
+    from the same sender, and carries the older key distribution, is therefore looked up in the newer (already advanced)
+    state and rejected as a duplicate.  enable=False restores the library's behaviour (canary)."""
+    global _orig_add_sender_key_state
+    import axolotl.groups.state.senderkeyrecord as skr
+    from axolotl.groups.state.senderkeystate import SenderKeyState
+    if _orig_add_sender_key_state is None:
+        _orig_add_sender_key_state = skr.SenderKeyRecord.addSenderKeyState
+    if not enable:
+        skr.SenderKeyRecord.addSenderKeyState = _orig_add_sender_key_state
+        return
+
+    def add_first(self, id, iteration, chainKey, signatureKey):
+        self.senderKeyStates.insert(0, SenderKeyState(id, iteration, chainKey, signatureKey))
+        del self.senderKeyStates[5:]
+    skr.SenderKeyRecord.addSenderKeyState = add_first
+
+
 def quiet_logging():
     """The library logs through ``logging``; keep stdout for the contract lines only."""
     logging.getLogger().setLevel(logging.CRITICAL)
